@@ -137,7 +137,7 @@ class CallMixin(object):
         finally:
             self.frames.pop()
 
-    def run_body(self, func, env, ctypes, self_obj, contract=None):
+    def run_body(self, func, env, ctypes, self_obj, contract=None, prefer_unroll=False):
         """execute func's body in a new frame; returns the return value (converted)"""
         if func.body is None:
             raise Unsupported('function %s has no body' % func.qualname)
@@ -148,6 +148,7 @@ class CallMixin(object):
         fr.local_names = assigned_names(func.body) | set(env)
         fr.loop_ord = loop_ordinals(func.body)
         fr.contract = contract
+        fr.prefer_unroll = prefer_unroll
         self.frames.append(fr)
         self.call_depth += 1
         saved_loops = self.loop_stack
@@ -213,7 +214,7 @@ class CallMixin(object):
         if c.loops:
             self.old_env = copy.deepcopy(dict(env))
         try:
-            return self.run_body(func, env, ctypes, obj, contract=c if c.loops else None)
+            return self.run_body(func, env, ctypes, obj, contract=c if c.loops else None, prefer_unroll=True)
         finally:
             self.old_env = saved_old
 
